@@ -81,6 +81,7 @@ func bitStringMaker20(arg sx.V) func(bits string) boc.BitString {
 // ---- receiver reuse
 
 var c20Prev = map[string]sx.V{}
+var c20PrevDoc = map[string][]byte{}
 
 func reuseOutcome20(fam string, arg, prev sx.V, doc []byte, direct bool) sx.V {
 	return watchdog20(func() sx.V {
@@ -114,9 +115,28 @@ func (k case20) reuse(c *Ctx, doc []byte) {
 		key = k.fam // one Go type whatever the construction route
 	}
 	prev, ok := c20Prev[key]
+	prevDoc := c20PrevDoc[key]
 	c20Prev[key] = k.val
+	c20PrevDoc[key] = append([]byte{}, doc...)
 	if !ok || k.fam == "cell" {
 		return // cells are compared by projection: see runCell
+	}
+	{
+		in := sx.L(sx.A(k.fam), k.arg, sx.Bytes(prevDoc), sx.Bytes(doc))
+		got := watchdog20(func() sx.V {
+			o, ok := lookup20(k.fam, k.arg)
+			if !ok {
+				return sx.L(sx.A("harness-error"), sx.A("family"))
+			}
+			v, err := o.after(prevDoc, doc)
+			if err != nil {
+				return sx.A("err")
+			}
+			return v
+		})
+		if !hang20(c, "c20.reuse", in, k.fam, got) && got.String() != prev.String() {
+			c.Fail("c20.reuse", in, "result-aliased-"+k.fam, fmt.Sprintf("the value decoded from %s reads %s after a later decode of %s, want %s", prevDoc, got, doc, prev))
+		}
 	}
 	for _, direct := range []bool{false, true} {
 		got := reuseOutcome20(k.fam, k.arg, prev, doc, direct)
